@@ -800,7 +800,7 @@ fn add_scase(st: &mut Stream, sc: &SCase, dir: &Path) {
     if sc.ksp.is_none() {
         terms.push(format!("search_M {} {}%Z {} {} {} {}", fuel, id, fr, coq_world(&sc.w, k), coq_query(&sc.q, k), DETAIL));
     }
-    terms.push(format!("search_S {} {}%Z {} {} {} {} {}", fuel, id, fr, coq_world(&sc.w, k), coq_query(&sc.q, k), coq_outcome(&o, k), DETAIL));
+    terms.push(format!("search_S {} {}%Z {} {} {} {} {} {}", fuel, id, fr, coq_bool(sc.ksp.is_some()), coq_world(&sc.w, k), coq_query(&sc.q, k), coq_outcome(&o, k), DETAIL));
     let line = format!("I {} {}", id, show_outcome(&o, DETAIL));
     let mut desc = scase_to_json(sc);
     desc["id"] = json!(id);
@@ -947,8 +947,37 @@ fn gen_real_frontier(r: &mut Rng, w: &World) -> (Cfg, bool, Value, Option<Vec<us
     (cfg, nested, Value::Object(query), cut)
 }
 
+/// one witness per known-finding class of property C04 (written to corpus/C04/ by `c04 corpus`, replayed first by the check)
+fn finding_witnesses() -> Vec<(&'static str, SCase)> {
+    let chain = World::new(5, vec![(0, 1), (1, 2), (2, 3), (3, 4)], vec![1.0, 1.0, 1.0, 1.0]);
+    let diamond = World::new(4, vec![(0, 1), (1, 3), (0, 2), (2, 3)], vec![1.0, 1.0, 2.0, 2.0]);
+    let q = |orient: Orient, dir: Dir, s: usize, t: usize| Query { alg: Alg::Dijkstra, dir, orient, source: s, target: Some(t), query_wf: None };
+    vec![
+        ("K_reopen", reopen_witness()),
+        // the origin edge e0 has class 1, the query allows class 0 only
+        ("K_query_edges", SCase { family: "corpus_K_query_edges".into(), w: chain.clone(), q: q(Orient::Edge, Dir::Forward, 0, 3), nested: false,
+                                  cfg: Cfg::RoadClass { lookup: vec![1, 0, 0, 0], mapping: vec![] }, query: json!({"road_classes": [0]}), cut: None, ksp: None }),
+        // restricted turn e1 -> e2; the reverse search from 4 to 0 drives it
+        ("K_reverse_turn", SCase { family: "corpus_K_reverse_turn".into(), w: chain.clone(), q: q(Orient::Vertex, Dir::Reverse, 4, 0), nested: false,
+                                   cfg: Cfg::Turn { pairs: vec![(1, 2)] }, query: json!({}), cut: None, ksp: None }),
+        // restricted turn e2 -> e3; the second single-via route is that turn
+        ("K_ksp_turn", SCase { family: "corpus_K_ksp_turn".into(), w: diamond, q: q(Orient::Vertex, Dir::Forward, 0, 3), nested: false,
+                               cfg: Cfg::Turn { pairs: vec![(2, 3)] }, query: json!({}), cut: None, ksp: Some(3) }),
+    ]
+}
+
+fn write_corpus(a: &Args) {
+    std::fs::create_dir_all(&a.out).unwrap();
+    for (name, sc) in finding_witnesses() {
+        let mut desc = scase_to_json(&sc);
+        desc["id"] = json!(0);
+        let v = json!({"stream": "search", "finding": name, "case": desc});
+        std::fs::write(a.out.join(format!("{}.json", name)), serde_json::to_string_pretty(&v).unwrap() + "\n").unwrap();
+    }
+}
+
 fn boundary_scases() -> Vec<SCase> {
-    let mut v = vec![reopen_witness()];
+    let mut v: Vec<SCase> = finding_witnesses().into_iter().map(|(_, sc)| sc).collect();
     // the frontier_forbids_* shapes of searchkit with the real models
     let base = World::new(4, vec![(0, 1), (1, 2), (2, 3), (0, 3), (3, 2), (2, 1), (1, 0), (3, 0)], vec![1.0, 1.0, 1.0, 9.0, 1.0, 1.0, 1.0, 9.0]);
     let veh = Vehicle { height: (4.0, 0), width: (2.5, 0), total_length: (20.0, 0), trailer_length: (13.5, 0), total_weight: (36.0, 1), axles: 5 };
@@ -982,6 +1011,13 @@ fn random_scase(r: &mut Rng) -> SCase {
     w.ferr.clear();
     let (q, _hk) = gen_query(r, &mut w);
     let (cfg, nested, query, cut) = gen_real_frontier(r, &w);
+    // one case in twelve: the single-via KSP algorithm on top of the same query (vertex-oriented, forward, with a target)
+    if r.chance(1, 12) && q.orient == Orient::Vertex && q.target.is_some() {
+        let mut q2 = q.clone();
+        q2.dir = Dir::Forward;
+        let k = 2 + r.below(3) as usize;
+        return SCase { family: "random_ksp_single_via".into(), w, q: q2, nested, cfg, query, cut, ksp: Some(k) };
+    }
     SCase { family: match fam { CostFamily::TieFree => "random_tie_free".into(), CostFamily::TieRich => "random_tie_rich".into() }, w, q, nested, cfg, query, cut, ksp: None }
 }
 
@@ -1056,6 +1092,7 @@ fn main() {
         "frontier" => stream_frontier(&a),
         "search" => stream_search(&a),
         "probe" => probe(&a),
+        "corpus" => write_corpus(&a),
         s => {
             eprintln!("unknown stream {}", s);
             std::process::exit(2);
